@@ -37,6 +37,7 @@ from .values import (
     STuple,
     SVal,
     SliceVal,
+    SplitVal,
     Unsupported,
     as_bool,
     fresh_name,
@@ -495,6 +496,12 @@ class Cx:
     def py_raise(self, clsname, msg=""):
         raise PyRaise(ExcVal(clsname, (msg,), self.cur_line))
 
+    def scope_limit(self, name, clause):
+        """The engine does not read what follows on this path: that the path cannot be taken becomes an obligation
+        (undischarged = the function is undecided, never silently skipped); the path ends here."""
+        self.oblige(f"engine-scope:{name}", "scope", z3.BoolVal(False), clause=clause)
+        raise PathEnd()
+
     # --- heap
     def heap_array(self, field, ft: T):
         if field not in self.heap:
@@ -851,6 +858,10 @@ class Interp:
             fr.env.set(target.id, v)
         elif isinstance(target, (ast.Tuple, ast.List)):
             items = self.iter_concrete(cx, v)
+            if items is None and isinstance(v, SplitVal) and 1 <= len(target.elts) <= 3:
+                # a, b = s.split(sep): ValueError unless there are exactly that many parts
+                cx.decide_or_fail(v.py_len(cx).t == len(target.elts), "ValueError", "not enough / too many values to unpack")
+                items = [v.py_getitem(cx, i) for i in range(len(target.elts))]
             if items is None or len(items) != len(target.elts):
                 raise Unsupported("tuple unpacking of symbolic-length value")
             for t, x in zip(target.elts, items):
@@ -1977,6 +1988,16 @@ def concrete_method(interp, cx, fr, recv, name, args, kwargs):
     if isinstance(recv, str):
         if name == "join" and len(args) == 1 and hasattr(args[0], "py_joined_by"):
             return args[0].py_joined_by(cx, recv)  # spec-level sequence of strings that knows its own join
+        if name == "join" and len(args) == 1:
+            items = cx.run.interp.iter_concrete(cx, args[0])
+            if items is not None and all(isinstance(x, (str, SStr)) for x in items) and any(isinstance(x, SStr) for x in items):
+                # "sep".join of a fixed number of (symbolic) strings
+                parts = []
+                for i, x in enumerate(items):
+                    if i:
+                        parts.append(z3.StringVal(recv))
+                    parts.append(term(x))
+                return SStr(z3.Concat(*parts) if len(parts) > 1 else parts[0])
         if any(is_sym(a) for a in args):
             return lift(recv).py_call_method(cx, name, args, kwargs)
         if name in ("startswith", "endswith", "find", "split", "strip", "lstrip", "rstrip", "join", "encode", "lower", "upper", "replace", "capitalize", "format"):
@@ -2221,6 +2242,15 @@ def make_builtins(interp):
     @reg("map")
     def _map(cx, fr, f, it):
         items = interp.iter_concrete(cx, it)
+        if items is None and isinstance(it, SplitVal):
+            # s.split(sep) has some number of parts: one path per count up to 3 (more: not read)
+            n = it.py_len(cx).t
+            for k in (3, 2, 1):
+                if cx.decide(n == k):
+                    items = [it.py_getitem(cx, i) for i in range(k)]
+                    break
+            else:
+                cx.scope_limit("split-has-at-most-three-parts", "more than three parts of a split are not read: shown impossible here, or the function counts as undecided")
         if items is None:
             if isinstance(it, (SSeq, SSet)):
                 return MapGen(f, it)  # only all()/any() can consume it
